@@ -112,6 +112,8 @@ class Auth(object):
         key_material = digest.finalize()
 
         parts = password_hash.encode('utf-8').split(b':')
+        if len(parts) != 4:
+            raise ValueError("invalid hash format")
         kind = parts[0]
         version = parts[1]
         params = base64.b64decode(parts[2])
@@ -130,6 +132,9 @@ class Auth(object):
             e = ValueError(str(ex))
         if e:
             raise e
+
+        if length < 1 or salt_length + length != len(data):
+            raise ValueError("invalid hash length")
 
         salt = data[:salt_length]
         expected = data[salt_length:]
